@@ -50,9 +50,14 @@ class TreeStream(VerdictOracle, Stream):
             "`**`, `*`, `*.ext`, `dir/**` or literal paths, closest / aggregate / override, copyright only / licence only / both / "
             "neither, last matching table applies; files with a full header, half a header or none, completed by one or two REUSE.toml "
             "files), dep5 with one-file and wildcard paragraphs (last match applies, always aggregated); LICENSES/ sub-directories and "
-            ".license companions, non-covered material: LICENSE, COPYING, *.spdx, empty files, symlinks, empty directories, git-ignored "
-            "files; one in five inside a Git repository; one in forty through the multiprocessing pool) with zero, one or 2-5 injected "
-            "defects of 20 kinds (missing, unused, bad used / provided, wrong case, deprecated, no extension, no copyright, no licence, "
+            ".license companions, non-covered material: LICENSE, COPYING, *.spdx, empty files, symlinks, empty directories; one in five "
+            "inside a Git repository (covered files tracked or not) that ignores 1-3 groups of entries - directories `/build/`, `build/`, "
+            "`/src/out/`, `/tmp/`, files `/info`, `/notes.txt`, `/src/gen`, `/cache`, a glob `*.log`, some carrying licence tags - next to "
+            "covered files whose names merely begin like an ignored entry (`build.gradle`, `builder/m.c`, `notes.txt.in`, "
+            "`src/output.c`, `run.log.txt`) or are a beginning of one (`buil`, `inf`, `src/ou`, `b`); one in forty through the "
+            "multiprocessing pool) with zero, one or 2-5 injected "
+            "defects of 22 kinds (an ill-formed LicenseRef- look-alike (underscore, non-ASCII, colon, empty tail) used and provided, "
+            "a text provided under a related name (X / X+ / X-only / X-or-later) only, missing, unused, bad used / provided, wrong case, deprecated, no extension, no copyright, no licence, "
             "neither, read error through a FIFO, LicenseRef- missing / without extension, only ID+ provided, empty notice in REUSE.toml, "
             "a dep5 paragraph whose License field is no SPDX expression, a licence tag on which the expression parser fails internally, "
             "a REUSE.toml table stripped / with another precedence / shadowed by a later table); real `reuse lint --json` and exit "
